@@ -1,6 +1,7 @@
 """C05 - transpilers compute and share the chart's structural relations: single writer / shared readers of the DOM
 annotations, loop-index consistency in table consumers, vocabulary and conflict-definition agreement (DESIGN 4/C05)."""
 from .. import facts, path, cfg as cfgm, tab
+from . import _domain
 from ..facts import AnalysisBroken, strip, sub, locstr
 
 TUS = ['src/uscxml/transform/ChartToC.cpp', 'src/uscxml/transform/ChartToPromela.cpp', 'src/uscxml/transform/ChartToVHDL.cpp',
@@ -22,12 +23,90 @@ def x_literal(n):
     return out
 
 
+def history_features(fb, f):
+    """membership conditions of the two completion.push_back sites and liveness of the isMember(.., covered) filter"""
+    out = {'deep': set(), 'shallow': set(), 'exclusion_live': False, 'site': f.where()}
+    pushes = [n for n in f.walk() if n['k'] == 'CXXMemberCallExpr' and n.get('callee', {}).get('q', '').endswith('::push_back') and any(
+        s['k'] == 'DeclRefExpr' and s['ref'].get('name') == 'completion' for s in sub(n['c'][0]))]
+    if len(pushes) != 2:
+        raise AnalysisBroken('%s: expected two completion.push_back sites (deep / shallow), found %d' % (f.q, len(pushes)))
+    for pb in pushes:
+        conds = []
+        branch = None
+        child = pb
+        for a in f.ancestors(pb):
+            if a['k'] == 'IfStmt':
+                kids = [c for c in a['c'] if c is not None]
+                c0 = strip(kids[0])
+                in_then = any(x is child or x['id'] == child['id'] for x in sub(kids[1]))
+                if c0['k'] == 'DeclRefExpr' and c0['ref'].get('name') == 'deep':
+                    branch = 'deep' if in_then else 'shallow'
+                    break
+                conds.append(kids[0])
+            if a['k'] in ('ForStmt', 'CXXForRangeStmt', 'WhileStmt'):
+                break
+        if branch is None:
+            raise AnalysisBroken('%s: completion.push_back at %s is not under the deep/shallow test' % (f.q, locstr(pb)))
+        feats = set()
+        for c in conds:
+            stack = [strip(c)]
+            while stack:
+                x = strip(stack.pop())
+                if x['k'] == 'BinaryOperator' and x.get('op') == '&&':
+                    stack += [x['c'][0], x['c'][1]]
+                    continue
+                neg = False
+                while x['k'] == 'UnaryOperator' and x.get('op') == '!':
+                    neg = not neg
+                    x = strip(x['c'][0])
+                q = x.get('callee', {}).get('q', '')
+                if q.endswith('DOMUtils::isDescendant'):
+                    par = any(s['k'] == 'CXXMemberCallExpr' and s.get('callee', {}).get('q', '').endswith('getParentNode') and any(
+                        y['k'] == 'DeclRefExpr' and y['ref'].get('name') == 'history' for y in sub(s)) for s in sub(x['c'][-1]))
+                    feats.add(('!' if neg else '') + ('isDescendant(state, parent(history))' if par else 'isDescendant(state, ?)'))
+                elif q.endswith('isHistory'):
+                    feats.add(('!' if neg else '') + 'isHistory(state)')
+                elif x['k'] == 'BinaryOperator' and x.get('op') == '==' and all(any(s['k'] == 'CXXMemberCallExpr' and s.get('callee', {}).get('q', '').endswith('getParentNode') for s in sub(k_)) for k_ in x['c']):
+                    feats.add(('!' if neg else '') + 'parent(state) == parent(history)')
+                else:
+                    feats.add(('!' if neg else '') + 'other<%s>' % fb.text(x)[:40])
+        out[branch] = feats
+    # liveness of the exclusion filter
+    filt = [n for n in f.walk() if n.get('callee', {}).get('q', '').endswith('DOMUtils::isMember') and any(a['k'] == 'IfStmt' for a in f.ancestors(n))]
+    maybe = set()
+    changed = True
+    while changed:
+        changed = False
+        for n in f.walk():
+            if n['k'] != 'CXXMemberCallExpr':
+                continue
+            m = n.get('callee', {}).get('q', '').split('::')[-1]
+            tgt = [s['ref'].get('name') for s in sub(n['c'][0]) if s['k'] == 'DeclRefExpr']
+            if not tgt:
+                continue
+            if m == 'push_back' and tgt[0] not in maybe:
+                maybe.add(tgt[0])
+                changed = True
+            if m in ('insert', 'merge', 'splice'):
+                srcs = {s['ref'].get('name') for a_ in n['c'][1:] for s in sub(a_) if s['k'] == 'DeclRefExpr'} - {tgt[0]}
+                if srcs & maybe and tgt[0] not in maybe:
+                    maybe.add(tgt[0])
+                    changed = True
+    for n in filt:
+        args = {s['ref'].get('name') for a_ in n['c'][1:] for s in sub(a_) if s['k'] == 'DeclRefExpr'}
+        if args & maybe - {'completion'}:
+            out['exclusion_live'] = True
+    return out
+
+
 def run(rep, tier):
     rep.rule('R05.1', 'single writer, shared readers: the DOM annotations (orders, parent, child/ancestor/completion/target/exit-set/conflict bit strings) are written only by ChartToC::prepare/setStateCompletion/setHistoryCompletion; a back-end that reads a relation into a local uses it (a relation read and then ignored is computed some other way)')
     rep.rule('R05.2', 'loop-index consistency: inside a loop over the states (transitions) a relation bit string is indexed with the order attribute of an element that varies with that loop; a loop-invariant filter never selects anything')
     rep.rule('R05.3', 'vocabulary agreement: the element-name sets that define document / post-fix order are the same six names at every site (ChartToC::prepare, LargeMicroStep::init, FastMicroStep::init)')
     rep.rule('R05.4', 'conflict definition agreement: ChartToC::prepare and Predicates.cpp::conflicts use the same terms (source ancestry both ways, exit-set intersection; same source)')
-    rep.assume('that Predicates.cpp computes the relations the recommendation defines for every state tree is not decided')
+    rep.rule('R05.5', 'shape of the shared helpers that define the tables: getTransitionDomain returns the source only for an internal transition with compound source whose targets ALL are descendants; findLCCA accepts the NEAREST ancestor that is compound and contains ALL states (quantifier-shape analysis on the CFG, flag idioms included)')
+    rep.rule('R05.6', 'history completion is defined alike in the transpiler tables and in both engines: deep = non-history descendants of the parent, shallow = non-history children, and the same answer to "are states covered by another history left out?" (liveness of the exclusion filter)')
+    rep.assume('that Predicates.cpp computes the relations the recommendation defines for every state tree is decided only as far as R05.4/R05.5 go (conflict terms, domain/LCCA quantifier shape); getProperAncestors, getTargetStates and the DOM helpers are not analysed')
     fb = facts.FactBase(TUS)
     rep.covered(tus=len(TUS), extracted=fb.extracted, functions=len(fb.funcs))
 
@@ -156,3 +235,24 @@ def run(rep, tier):
     n_anc_c = sum(1 for s in sub(cif['c'][0]) if s.get('callee', {}).get('q', '').endswith('DOMUtils::isDescendant'))
     rep.check(tp == tc == {'source-ancestry', 'exit-set-intersection'} and n_anc == n_anc_c == 2, 'R05.4', 'conflict terms', locstr(cif),
               'Predicates.cpp::conflicts uses %s (%d ancestry tests); ChartToC::prepare uses %s (%d)' % (sorted(tp), n_anc, sorted(tc), n_anc_c))
+
+    # ---- R05.5
+    ns, na = _domain.check(rep, 'R05.5', fb, [fb.fn('uscxml::getTransitionDomain'), fb.fn('uscxml::findLCCA')], 'Predicates')
+    rep.minimum('R05.5', ns + na, 2, 'shortcut / acceptance sites of the domain helpers')
+    xs = fb.fn('uscxml::getExitSet')
+    uses = [n for n in xs.walk() if n.get('callee', {}).get('q', '').endswith('getTransitionDomain')]
+    rep.check(bool(uses), 'R05.5', 'getExitSet|uses the transition domain', xs.where(), 'getExitSet derives the exit set from getTransitionDomain: %s' % bool(uses))
+
+    # ---- R05.6
+    defs = {}
+    for q in ('uscxml::ChartToC::setHistoryCompletion', 'uscxml::LargeMicroStep::getHistoryCompletion', 'uscxml::FastMicroStep::getHistoryCompletion'):
+        defs[q.split('uscxml::')[-1]] = history_features(fb, fb.fn(q))
+    names = sorted(defs)
+    ref = defs[names[0]]
+    rep.sample({'history completion features': {k: {kk: vv for kk, vv in v.items() if kk != 'site'} for k, v in defs.items()}})
+    for k in names:
+        v = defs[k]
+        rep.check(v['deep'] == {'isDescendant(state, parent(history))', '!isHistory(state)'} and v['shallow'] == {'parent(state) == parent(history)', '!isHistory(state)'}, 'R05.6', k + '|membership', v['site'],
+                  'deep completion admits a state under %s, shallow completion under %s' % (sorted(v['deep']), sorted(v['shallow'])))
+    rep.check(len({defs[k]['exclusion_live'] for k in names}) == 1, 'R05.6', 'exclusion filter agreement', defs[names[0]]['site'],
+              'states covered by another history are left out: %s' % {k: defs[k]['exclusion_live'] for k in names})
